@@ -41,7 +41,7 @@ MOD = "mcverif.checks.c04"
 
 # ---- bounds (one place) -------------------------------------------------------------------------
 # per tier and family: the alphabet of each level of the search (depth = number of levels).
-# FULL = whole alphabet of c04_ops (33-41 operations), SUB2 (20) and SUB3 (14) nested subsets.
+# FULL = whole alphabet of c04_ops (42-48 operations), SUB2 (11-16) and SUB3 (10-14) nested subsets.
 # Explored: every history of length n whose operations all belong to the level-n alphabet
 # (each operation at most once per history).
 LEVELS = {
